@@ -535,6 +535,19 @@ func (w *kqueue) readEvents() {
 						}
 					}
 				}
+			} else if event.Has(Rename) && !path.isDir {
+				// The name may be in use again already (mv f1 f2; touch f1)
+				// if we got here late: the directory's event comes first,
+				// when f1 was still marked as seen, so look again like above.
+				path := filepath.Clean(event.Name)
+				if _, ok := w.watches.byPath(filepath.Dir(path)); ok {
+					if fi, err := os.Lstat(path); err == nil {
+						err := w.sendCreateIfNew(path, fi)
+						if !w.sendError(err) {
+							return
+						}
+					}
+				}
 			}
 		}
 	}
